@@ -202,4 +202,6 @@ pub struct Event {
     pub post: PState,
     pub pos: Vec<PPos>,
     pub api: serde_json::Value,
+    /// event-specific extra observations (fixed shape per event kind; {"has": false} when there are none)
+    pub x: serde_json::Value,
 }
